@@ -1,6 +1,7 @@
 import PersimVerif.Lemmas.PNormSup
 import PersimVerif.Lemmas.PNormStab
 import PersimVerif.Lemmas.PNormMink
+import PersimVerif.Lemmas.PNormReal
 import Mathlib.Analysis.SpecialFunctions.Pow.Real
 import Mathlib.Tactic.NormNum
 
@@ -553,15 +554,14 @@ theorem pnorm_triangle (p : ℕ) (hp : 1 ≤ p) (f g h : List (List (ℝ × ℝ)
     (hf : ∀ l ∈ f, StrictAbsc l) (hg : ∀ l ∈ g, StrictAbsc l) (hh : ∀ l ∈ h, StrictAbsc l)
     (hsum : ∀ k t, evalDepth h k t = evalDepth f k t + evalDepth g k t) :
     (pNormPow p h) ^ ((1 : ℝ) / p) ≤ (pNormPow p f) ^ ((1 : ℝ) / p) + (pNormPow p g) ^ ((1 : ℝ) / p) := by
-  set N := max (max f.length g.length) h.length with hN
-  have e : ∀ x : List (List (ℝ × ℝ)), (∀ l ∈ x, StrictAbsc l) → x.length ≤ N →
-      pNormPow p x = ∑ k ∈ Finset.range N, depthInt p x k := by
-    intro x hx hlen
-    rw [pnorm_pow_eq_sum_depths p hp x hx]
-    exact sum_depthInt_extend p hp x N hlen
-  rw [e f hf (le_trans (le_max_left _ _) (le_max_left _ _)),
-    e g hg (le_trans (le_max_right _ _) (le_max_left _ _)), e h hh (le_max_right _ _)]
-  exact sum_depthInt_triangle p hp f g h hf hg hh hsum N
+  have hp1 : (1 : ℝ) ≤ (p : ℝ) := by exact_mod_cast hp
+  have e : ∀ x : List (List (ℝ × ℝ)), (∀ l ∈ x, StrictAbsc l) →
+      pNormPow p x = (x.map fun l => ∫ t, |evalPL l t| ^ (p : ℝ)).sum := by
+    intro x hx
+    rw [pnorm_pow_eq_integral p hp x hx]
+    simp only [Real.rpow_natCast]
+  rw [e f hf, e g hg, e h hh]
+  exact integral_norm_triangle (p : ℝ) hp1 f g h hf hg hh hsum
 
 theorem evalDepth_scale (c : ℝ) (cps : List (List (ℝ × ℝ))) (k : ℕ) (t : ℝ) :
     evalDepth (scaleCps c cps) k t = c * evalDepth cps k t := by
@@ -585,6 +585,70 @@ example (f : List (List (ℝ × ℝ))) (hf : ∀ l ∈ f, StrictAbsc l) :
     exact strictAbsc_scale 3 l0 (hf l0 hl0)
   · intro k t
     rw [evalDepth_scale, evalDepth_scale]; ring
+
+/-! ### real exponents `p ≥ 1` (the model instantiated with `Real.rpow` and the code's `expm1 ∘ log`) -/
+
+/-- **segment_integral_real**: the segment term of the model for a real exponent `p ≥ 0`, with
+    `x ** p := Real.rpow` and the one-signed branch written with `-(exp((p+1)·log r) − 1)` exactly as
+    the code writes it, is `∫ |line|^p` over the segment. -/
+theorem segment_integral_real (p : ℝ) (hp : 0 ≤ p) (x0 y0 x1 y1 : ℝ) (hx : x0 < x1) :
+    segTerm (fun x => x ^ p) (fun x => x ^ (p + 1)) (fun r => -(Real.exp ((p + 1) * Real.log r) - 1))
+        (p + 1) x0 y0 x1 y1
+      = ∫ t in x0..x1, |y0 + (y1 - y0) * (t - x0) / (x1 - x0)| ^ p :=
+  segTermReal_eq_integral p hp x0 y0 x1 y1 hx
+
+/-- **pnorm_real_pow_eq_integral**: for every real `p ≥ 1` the accumulated value is `Σ_k ∫_ℝ |λ_k|^p`. -/
+theorem pnorm_real_pow_eq_integral (p : ℝ) (hp : 1 ≤ p) (cps : List (List (ℝ × ℝ)))
+    (hs : ∀ l ∈ cps, StrictAbsc l) :
+    pNormPowGen (fun x => x ^ p) (fun x => x ^ (p + 1)) (fun r => -(Real.exp ((p + 1) * Real.log r) - 1))
+        (p + 1) cps
+      = (cps.map fun l => ∫ t, |evalPL l t| ^ p).sum :=
+  pNormPowReal_eq_integral p hp cps hs
+
+/-- **the public method for real `p ≥ 1`** on a well-formed landscape: validation passes, no error is
+    raised, and the value is the `p`-th root of `Σ_k ∫ |λ_k|^p`. -/
+theorem pNormMethod_real (p : ℝ) (hp : 1 ≤ p) (cps : List (List (ℝ × ℝ))) (hs : ∀ l ∈ cps, StrictAbsc l) :
+    pNormMethod (fun r => r ^ (1 / p)) (fun x => x ^ p) (fun x => x ^ (p + 1))
+        (fun r => -(Real.exp ((p + 1) * Real.log r) - 1)) p cps
+      = .ok (((cps.map fun l => ∫ t, |evalPL l t| ^ p).sum) ^ (1 / p)) := by
+  rw [pNormMethod_accepts _ _ _ _ p hp cps (no_vertical_of_strict cps hs),
+    pnorm_real_pow_eq_integral p hp cps hs]
+
+/-- natural exponents are the special case: both instantiations of the model agree -/
+theorem pnorm_real_natCast (p : ℕ) (hp : 1 ≤ p) (cps : List (List (ℝ × ℝ))) (hs : ∀ l ∈ cps, StrictAbsc l) :
+    pNormPowReal (p : ℝ) cps = pNormPow p cps := by
+  rw [pNormPowReal_eq_integral (p : ℝ) (by exact_mod_cast hp) cps hs, pnorm_pow_eq_integral p hp cps hs]
+  simp only [Real.rpow_natCast]
+
+/-- homogeneity for real exponents -/
+theorem pnorm_real_homogeneous (p : ℝ) (hp : 0 ≤ p) (c : ℝ) (cps : List (List (ℝ × ℝ)))
+    (hs : ∀ l ∈ cps, StrictAbsc l) :
+    pNormPowReal p (scaleCps c cps) = |c| ^ p * pNormPowReal p cps := by
+  have hs' : ∀ l ∈ scaleCps c cps, StrictAbsc l := by
+    intro l hl
+    obtain ⟨l0, hl0, rfl⟩ := List.mem_map.mp hl
+    exact strictAbsc_scale c l0 (hs l0 hl0)
+  rw [pNormPowReal_eq_interval p hp _ hs', pNormPowReal_eq_interval p hp cps hs]
+  unfold scaleCps
+  rw [List.map_map, ← List.sum_map_mul_left]
+  congr 1
+  apply List.map_congr_left
+  intro l _
+  simp only [Function.comp, firstX_scale, lastX_scale, evalPL_scale, abs_mul,
+    Real.mul_rpow (abs_nonneg _) (abs_nonneg _)]
+  rw [intervalIntegral.integral_const_mul]
+
+/-- triangle inequality for real exponents -/
+theorem pnorm_real_triangle (p : ℝ) (hp : 1 ≤ p) (f g h : List (List (ℝ × ℝ)))
+    (hf : ∀ l ∈ f, StrictAbsc l) (hg : ∀ l ∈ g, StrictAbsc l) (hh : ∀ l ∈ h, StrictAbsc l)
+    (hsum : ∀ k t, evalDepth h k t = evalDepth f k t + evalDepth g k t) :
+    (pNormPowReal p h) ^ (1 / p) ≤ (pNormPowReal p f) ^ (1 / p) + (pNormPowReal p g) ^ (1 / p) := by
+  rw [pNormPowReal_eq_integral p hp f hf, pNormPowReal_eq_integral p hp g hg,
+    pNormPowReal_eq_integral p hp h hh]
+  exact integral_norm_triangle p hp f g h hf hg hh hsum
+
+/-- non-vacuity: `p = 5/2` meets `1 ≤ p` -/
+example : (1 : ℝ) ≤ 5 / 2 := by norm_num
 
 /-! ### stability of the landscape under a partial matching (the bottleneck clause) -/
 
